@@ -84,7 +84,7 @@ struct Case {
     int dxn, sxn;
 };
 
-#define MAXE 96       /* max elements of an ordinary operand in the lattice */
+#define MAXE 320      /* max elements of an ordinary operand in the lattice */
 
 struct Ctx {
     const Fn *fn;
